@@ -106,6 +106,9 @@ type Sched struct {
 	Races  map[string]*RaceReport
 
 	finishing bool
+	// Frozen: environment choices take their default answer without becoming
+	// choice points (used while a harness replays a fixed setup prefix).
+	Frozen bool
 
 	// harness scratch
 	Data interface{}
@@ -296,7 +299,7 @@ func (s *Sched) choice(n int, env bool, runEn bool) int {
 // Choose is an environment choice point with n options; option 0 is the
 // default answer, any other one is a deviation.
 func (s *Sched) Choose(n int, kind string) int {
-	if n <= 1 {
+	if n <= 1 || s.Frozen {
 		return 0
 	}
 	s.mix(s.cur, "choose:"+kind)
@@ -744,3 +747,18 @@ func CallerSite() string { return callerSite() }
 // Unwinding reports whether t is being torn down (its shim operations must
 // neither block nor fail).
 func (s *Sched) Unwinding(t *Thread) bool { return s.finishing || (t != nil && t.aborted) }
+
+// WaitUntil blocks the calling controlled thread until pred holds. It returns
+// false when the thread is being torn down.
+func WaitUntil(pred func() bool, what string) bool {
+	s := S
+	if s == nil {
+		return pred()
+	}
+	t := s.cur
+	if s.Unwinding(t) {
+		return false
+	}
+	s.yield(t, pred, what)
+	return !s.Unwinding(t)
+}
